@@ -152,8 +152,8 @@ def module_files(root: M.Schema) -> List[Tuple[str, M.Schema, int]]:
 class Scratch:
     """Scratch directory outside /repo and /verif, removed on exit."""
 
-    def __init__(self, prefix: str = "verif-") -> None:
-        self.dir = tempfile.mkdtemp(prefix=prefix)
+    def __init__(self, prefix: str = "verif-", base: Optional[str] = None) -> None:
+        self.dir = tempfile.mkdtemp(prefix=prefix, dir=base)
 
     def write(self, files: Dict[str, str]) -> None:
         for rel, text in files.items():
@@ -173,6 +173,19 @@ class Scratch:
 
     def __exit__(self, *a: Any) -> None:
         self.close()
+
+
+def other_filesystem() -> Optional[str]:
+    """A writable directory on another file system than the default temporary directory (or None): renames across the
+    two fail with EXDEV, hard links too."""
+    try:
+        here = os.stat(tempfile.gettempdir()).st_dev
+        for cand in ("/dev/shm", "/run/shm", "/var/tmp", os.path.expanduser("~")):
+            if os.path.isdir(cand) and os.access(cand, os.W_OK) and os.stat(cand).st_dev != here:
+                return cand
+    except OSError:
+        pass
+    return None
 
 
 def get_fcp_logged(path: str) -> Tuple[str, Any, Any]:
